@@ -13,6 +13,7 @@ package objectcore
 // after the sign and the leading zeros ("0" if nothing is left), negative only for '-' and a
 // non-zero value.
 //@ func splitIntString
+//@   property C04
 //@   loop 1 invariant signLen(s[0]) <= i && i <= len(s) && neg == (s[0] == 45) && (forall k int :: signLen(s[0]) <= k && k < i ==> s[k] == 48)
 //@   loop 2 invariant start <= i && i <= len(s) && (forall k int :: start <= k && k < i ==> 48 <= s[k] && s[k] <= 57)
 //@   ensures [accepts_exactly_optionally_signed_digit_strings] (err == nil) == (len(s) > 0 && signLen(s[0]) < len(s) && (forall k int :: signLen(s[0]) <= k && k < len(s) ==> 48 <= s[k] && s[k] <= 57))
@@ -21,15 +22,19 @@ package objectcore
 //@   ensures [digits_are_what_follows_sign_and_leading_zeros] err == nil ==> signLen(s[0]) <= start && start <= len(s) && (forall k int :: signLen(s[0]) <= k && k < start ==> s[k] == 48) && ite(start == len(s), len(res1) == 1 && res1[0] == 48, res1 == s[start:] && s[start] != 48)
 
 //@ func compareNormalizedDigits
+//@   property C04
 //@   ensures [length_then_lexicographic] normDigits(a) && normDigits(b) ==> result == numCmp(a, b)
 
+// (C04 too: the engine merges the shards' numerically ordered results with this comparator.)
 // Signed comparison from the normalised spellings: different signs decide (a negative value
 // is non-zero), equal signs compare magnitudes, reversed for negatives.
 //@ func compareIntStrings
+//@   property C04
 //@   ensures [sign_of_difference] err == nil ==> res0 == ite(na != nb, ite(na, -1, 1), ite(na, 0 - numCmp(da, db), numCmp(da, db)))
 //@   ensures [operands_normalised] err == nil ==> normDigits(da) && normDigits(db) && (na ==> da[0] != 48) && (nb ==> db[0] != 48)
 
 //@ func parseNumericFilterValue
+//@   property C03
 //@   opt wide=272
 //@   ensures [normalised] err == nil ==> (res0.neg ==> leval(res0.mag, 0, 4) != 0)
 
@@ -133,6 +138,17 @@ package objectcore
 //@ func CalculateCursor
 //@   ensures [identifier_values_are_decoded] err == nil && len(res0) > 32 && (attr == object.FilterOwnerID || attr == object.FilterFirstSplitObject || attr == object.FilterParentID || attr == object.AttributeAssociatedObject) ==> idValueDecoded()
 
+// A primary filter "attribute NOT_PRESENT" has no attribute index to walk: the shards list
+// by object ID and accept only a plain 32-byte ID cursor for such a query, so the merged
+// cursor must be the last item's ID alone.
+//@ ghost pred primaryFilterOp() int
+//@ callrule c04_primary_filter_operation in CalculateCursor
+//@   callee (object.SearchFilter).Operation, (*object.SearchFilter).Operation
+//@   pureeffect
+//@   defines result == primaryFilterOp()
+//@ func CalculateCursor
+//@   ensures [absence_filter_gets_a_plain_id_cursor] err == nil && filt != nil && primaryFilterOp() == object.MatchNotPresent ==> len(res0) == 32
+
 //@ callrule c04_merge_orders_identifier_values_by_bytes in MergeSearchResults
 //@   callee strings.Compare
 //@   pureeffect
@@ -150,3 +166,22 @@ package objectcore
 //@   opt wide=272
 //@   valid (dbVal.neg ==> leval(dbVal.mag, 0, 4) != 0) && (fltVal.neg ==> leval(fltVal.mag, 0, 4) != 0)
 //@   ensures [numeric_comparison_of_the_values] result == ite(matcher == object.MatchNumGT, valOf(dbVal.neg, leval(dbVal.mag, 0, 4)) > valOf(fltVal.neg, leval(fltVal.mag, 0, 4)), ite(matcher == object.MatchNumGE, valOf(dbVal.neg, leval(dbVal.mag, 0, 4)) >= valOf(fltVal.neg, leval(fltVal.mag, 0, 4)), ite(matcher == object.MatchNumLT, valOf(dbVal.neg, leval(dbVal.mag, 0, 4)) < valOf(fltVal.neg, leval(fltVal.mag, 0, 4)), valOf(dbVal.neg, leval(dbVal.mag, 0, 4)) <= valOf(fltVal.neg, leval(fltVal.mag, 0, 4)))))
+
+// The search handler is fed the keys of one attribute index in ascending order and answers
+// "go on" (true) or "stop" (false). Besides an error and a full page, stopping is justified
+// only when no later key can match any more: the filter that just failed on the primary
+// attribute is an upper bound (NUM_LT / NUM_LE), or it is the equality / prefix filter the
+// iteration was positioned by (the first one). A failed lower bound, a failed != and a
+// failed equality / prefix filter that did not position the iteration say nothing about the
+// keys that follow.
+//@ func invalidMetaBucketKeyErr
+//@   assigns nothing
+//@   ensures [is_an_error] result != nil
+// The deferred function only publishes the cursor (UpdatedSearchCursor); the matching
+// helpers read their arguments.
+//@ callrule c03_handler_collaborators in MetaDataKVHandler$1
+//@   callee object.MetaDataKVHandler$1$1, object.convertFilterValue, object.IsIntegerSearchOp, object.intBytesMatch, object.combineValues, object.matchValues, object.splitValOID, (object.SearchFilter).*, (*object.SearchFilter).*, (object.AttributeGetter).Get, signed256.ParseDecimal, object.parseNumericFilterValue, object.intMatches, object.RestoreIntAttribute, object.restoreAttributeValue, dynamic:*
+//@   pureeffect
+//@   assigns SearchResult.UpdatedSearchCursor
+//@ func MetaDataKVHandler$1
+//@   ensures [stops_only_when_no_later_key_can_match] !result && resHolder.Err == nil && !deref(more) ==> mch == object.MatchNumLT || mch == object.MatchNumLE || (i == 0 && (mch == object.MatchStringEqual || mch == object.MatchCommonPrefix))
